@@ -104,6 +104,14 @@ def bucketing(name, n, topsize, topbits=32, eps=1, tiers=Q, timeout=1800):
                        'sdsl::memory_monitor::record stubbed (accounting only), huge-page allocator paths asserted unreachable' % (n, eps, topsize, topbits))
 
 
+def sdslidx(name, unit, ufunc, kt, n, eps=1, epsrec=1, tiers=Q, timeout=1800, mem_gb=14):
+    d = dict(KT[kt]); d.update(N=n, EPS=eps, EPSREC=epsrec, UFUNC=ufunc, NO_EMPTY_RANGES=1, VERIF_VEC_CAP=n + 6)
+    return dict(name=name, unit=unit, harness='h_bucketing.c', defs=d, narrow=0, roots=['@' + ufunc], timeout=timeout, tiers=tiers, mem_gb=mem_gb,
+                noop=['memory_monitor6record'], unreachable=['_Rb_tree', 'system_category', 'system_error', 'bad_alloc', 'hugepage'],
+                bounds='exactly %d sorted %s keys, every non-reserved query, Epsilon=%d, EpsilonRecursive=%d; sdsl (sd_vector, select supports, int_vector, memory_manager) is the real code on '
+                       'malloc/realloc; memory_monitor::record stubbed, huge-page paths asserted unreachable, log2 modelled to 16 fractional bits' % (n, kt, eps, epsrec))
+
+
 JOBS = {}
 JOBS['C01'] = [
     e2e('e2e_u8_n1_e1_r1', 'uint8_t', 1, 1, 1),
@@ -121,8 +129,8 @@ JOBS['C03'] = [pla('pla_fit_k3_e0', 3, epsfix=0, maximality=False),
                pla('pla_fit_k3_e1_x63', 3, epsfix=1, xmax=63, ymax=6, maximality=False), pla('pla_fit_k3_e2_x31', 3, epsfix=2, xmax=31, ymax=6, maximality=False),
                pla('pla_fit_k3_e1', 3, epsfix=1, maximality=False, tiers=T, timeout=3000), pla('pla_fit_k3_e2', 3, epsfix=2, maximality=False, tiers=T, timeout=3000),
                pla('pla_fit_k4_e1_x31', 4, epsfix=1, xmax=31, ymax=6, maximality=False, tiers=T, timeout=3000)]
-JOBS['C03'] += [mkseg('mkseg_n3_e1_c2', 3, 1, chunks=2, timeout=1800), mkseg('mkseg_n3_e1', 3, 1, tiers=T, timeout=3000), mkseg('mkseg_n4_e1_c2', 4, 1, chunks=2, tiers=T, timeout=3000, ), mkseg('mkseg_n4_e0_c3', 4, 0, chunks=3, tiers=T, timeout=3000)]
-JOBS['C04'] = [pla('pla_max_k3_e%d_x15' % e, 3, epsfix=e, xmax=15, ymax=6) for e in (0, 1)] + \
+JOBS['C03'] += [mkseg('mkseg_n2_e0', 2, 0), mkseg('mkseg_n2_e1', 2, 1), mkseg('mkseg_n3_e1_c2', 3, 1, chunks=2, timeout=1800), mkseg('mkseg_n3_e1', 3, 1, tiers=T, timeout=3000), mkseg('mkseg_n4_e1_c2', 4, 1, chunks=2, tiers=T, timeout=3000, ), mkseg('mkseg_n4_e0_c3', 4, 0, chunks=3, tiers=T, timeout=3000)]
+JOBS['C04'] = [pla('pla_max_k3_e%d_x15' % e, 3, epsfix=e, xmax=15, ymax=6) for e in (0, 1)] + [pla('pla_max_k3_e2_x7', 3, epsfix=2, xmax=7, ymax=12)] + \
               [pla('pla_max_k3_e1_x63', 3, epsfix=1, xmax=63, ymax=6, tiers=T, timeout=3000)]
 JOBS['C14'] = [md('md_contains_n1', 0, 1, 3), md('md_contains_n2', 0, 2, 3)]
 JOBS['C13'] = [md('md_range_n1', 1, 1, 3), md('md_range_n2', 1, 2, 3), md('md_range_n3_skip', 1, 3, 3, miss=0, epsrec=0, timeout=1800), md('md_range_n4_skip', 1, 4, 3, miss=0, tiers=T, timeout=3000)]
@@ -135,6 +143,7 @@ JOBS['C15'] += [dynstep('dynstep_inv_322', 2, 3, 2, 2)]
 JOBS['C11'] = [mapped('mapped_u8_n2', 'uint8_t', 2), mapped('mapped_i8_n2', 'int8_t', 2), mapped('mapped_u8_n3_dense', 'uint8_t', 3, ord_hi=3), mapped('mapped_i8_n3', 'int8_t', 3, tiers=T, timeout=3000)]
 
 JOBS['C09'] = [bucketing('bucket_n2_t3', 2, 3), bucketing('bucket_n2_t4', 2, 4), bucketing('bucket_n3_t3', 3, 3), bucketing('bucket_n3_t4_dyn', 3, 4, topbits=0, tiers=T, timeout=3000), bucketing('bucket_n4_t6', 4, 6, tiers=T, timeout=4000)]
+JOBS['C10'] = [sdslidx('ef_u16_n1', 'eliasfano.cpp', 'u_eliasfano', 'uint16_t', 1), sdslidx('ef_u16_n2', 'eliasfano.cpp', 'u_eliasfano', 'uint16_t', 2)]
 JOBS['C02'] = JOBS['C01'] + [j_ for j_ in JOBS['C03'] if j_['name'] == 'mkseg_n3_e1_c2']
 JOBS['C07'] = [e2e('e2e_u8_n3_e1_r1', 'uint8_t', 3, 1, 1), e2e('e2e_i8_n2_e1_r1', 'int8_t', 2, 1, 1), e2e('e2e_u8_n4_e1_r1', 'uint8_t', 4, 1, 1, tiers=T, timeout=3000)]
 JOBS['C16'] = [e2e('frame_u8_n2_e1_r1', 'uint8_t', 2, 1, 1, extra=dict(WITH_FRAME=1)), e2e('frame_u8_n3_e1_r0', 'uint8_t', 3, 1, 0, extra=dict(WITH_FRAME=1))]
